@@ -23,7 +23,7 @@ CHECKS = [
     ),
     _check(
         "C03",
-        "Every one of the 694 catalogue modules is observed under the canonical history and under six digit-boundary counter placements inside its own allocation (systematic part), every package is imported and observed in one seeded order and in its reverse (every ordered pair inside a package), the whole catalogue is imported in two orders, every module is re-observed after the user created objects of their own (wrappers, functions, quantities, indexed symbols, points) and churned temporary dimensions; then a seeded search over histories (real imports in random order incl. dependents-first, real creations incl. in another thread, forward counter jumps to L*10^d-j for SYM/FUN/QTY, cache evictions, calculate_* use with equal/nearby arguments, arguments created long before use, printing of equations, documentation pages generated or failing (once or twice in a row, recovery by assignment or through reset_sympy_evaluation()) before use, 4 zygote configurations of hash seed x cache size) observes 1-3 target modules per run. Oracle: import succeeds; numeric meaning fingerprints of every published equation, symbol metadata and every returning calculate_* outcome equal those of the same tree under the canonical history. Sampling over histories, exhaustive over modules for the systematic placements.",
+        "Every one of the 694 catalogue modules is observed under the canonical history and under six digit-boundary counter placements inside its own allocation (systematic part), every package is imported and observed in one seeded order and in its reverse (every ordered pair inside a package), the whole catalogue is imported in two orders, every module is re-observed after the user created objects of their own (wrappers, functions, quantities, indexed symbols, points) and churned temporary dimensions; then a seeded search over histories (real imports in random order incl. dependents-first, real creations incl. in another thread, forward counter jumps to L*10^d-j for SYM/FUN/QTY, cache evictions, calculate_* use with equal/nearby arguments, arguments created long before use, printing of equations, documentation pages generated or failing (once or twice in a row, recovery by assignment or through reset_sympy_evaluation()) before use, 4 zygote configurations of hash seed x cache size, and 6 % of the short random histories in a process with SymPy's cache switched off) observes 1-3 target modules per run. Oracle: import succeeds; numeric meaning fingerprints of every published equation, symbol metadata and every returning calculate_* outcome equal those of the same tree under the canonical history. Sampling over histories, exhaustive over modules for the systematic placements.",
         "Self-differential: the reference is the same tree in a fresh process; a behaviour that is wrong in every history is invisible except for import failure. Jump == bulk creation is sample-tested. Trusted: CPython import/fork, SymPy N/subs/doit inside the fingerprint.",
         "deterministic simulation: seeded history (import order / counter state / cache eviction) search against the canonical-history run of the same code, ddmin-minimised replay files",
         "DESIGN.md section 3",
